@@ -1,12 +1,13 @@
 import Lean
 import H2V.Lemmas.ConnResetPState
 /-
-  ConnResetP — `Evolves SRel RInv` for the operations of prioritize.rs / send.rs that touch the state
+  ConnResetP — `Evolves (SRel D) RInv` for the operations of prioritize.rs / send.rs that touch the state
   or the `pending_send` deque of a stream (everything else is in ConnResetPFrame).
 -/
 set_option linter.unusedSectionVars false
 namespace H2V.Lemmas.ConnResetP
 open H2V H2V.Model H2V.Model.Conn
+variable {D : Nat → Prop}
 
 set_option allowUnsafeReducibility true in
 attribute [local reducible] Streams.stream Store.getD'
@@ -17,19 +18,19 @@ variable {a : Store} {s : Streams}
 /-- a queue change that obviously adds no RST_STREAM -/
 macro_rules
   | `(tactic| ev_step) =>
-    `(tactic| (with_reducible refine Evolves.mod_queue' ?_ _ _ (fun _ => rfl) (fun _ => rfl) (fun _ => rfl) ?hq;
+    `(tactic| (with_reducible refine Evolves.mod_queue' ?_ _ _ (fun _ => rfl) (fun _ => rfl) (fun _ => rfl) (fun _ => rfl) ?hq;
                case hq => (intro _; simp [isResetFrame, resetCount_drop_le]; done)))
 
-theorem clearQueue_sr (h : Evolves SRel RInv a s.store) (id : Nat) : Evolves SRel RInv a (s.clearQueue id).store := by
+theorem clearQueue_sr (h : Evolves (SRel D) RInv a s.store) (id : Nat) : Evolves (SRel D) RInv a (s.clearQueue id).store := by
   unfold Streams.clearQueue; ev
 macro_rules | `(tactic| ev_step) => `(tactic| with_reducible apply clearQueue_sr)
 
 /-- `queue_frame` of anything but an RST_STREAM -/
-theorem queueFrame_sr (h : Evolves SRel RInv a s.store) (id : Nat) (f : SFrame) (hf : isResetFrame f = false) :
-    Evolves SRel RInv a (s.queueFrame id f).store := by
+theorem queueFrame_sr (h : Evolves (SRel D) RInv a s.store) (id : Nat) (f : SFrame) (hf : isResetFrame f = false) :
+    Evolves (SRel D) RInv a (s.queueFrame id f).store := by
   unfold Streams.queueFrame
   ev
-  refine Evolves.mod_queue' h _ _ (fun _ => rfl) (fun _ => rfl) (fun _ => rfl) (fun _ => by simp [hf])
+  refine Evolves.mod_queue' h _ _ (fun _ => rfl) (fun _ => rfl) (fun _ => rfl) (fun _ => rfl) (fun _ => by simp [hf])
 macro_rules | `(tactic| ev_step) => `(tactic| (with_reducible refine queueFrame_sr ?_ _ _ rfl))
 
 /-- closes `StateStep id st (f st)` for the transition functions of state.rs -/
@@ -45,12 +46,12 @@ macro_rules
 /-- a state step of one entry, computed from the entry itself -/
 macro_rules
   | `(tactic| ev_step) =>
-    `(tactic| (with_reducible refine Evolves.mod_state ?_ _ _ (fun _ => rfl) (fun _ => rfl) (fun _ => rfl) ?hs;
+    `(tactic| (with_reducible refine Evolves.mod_state ?_ _ _ (fun _ => rfl) (fun _ => rfl) (fun _ => rfl) (fun _ => rfl) ?hs;
                case hs => state_step_tac))
 
-theorem Evolves.mod_setReset_scheduled {S : Store} (h : Evolves SRel RInv a S) (id : Nat) (r : Reason) (i : Initiator)
+theorem Evolves.mod_setReset_scheduled {S : Store} (h : Evolves (SRel D) RInv a S) (id : Nat) (r : Reason) (i : Initiator)
     (hs : (Store.getD' S id).state.isScheduledReset = true) :
-    Evolves SRel RInv a (Store.mod S id (fun st => (st.setReset r i).1)) := by
+    Evolves (SRel D) RInv a (Store.mod S id (fun st => (st.setReset r i).1)) := by
   refine h.mod _ _ (fun st hg => ?_)
   rw [Store.getD'_of_get? hg] at hs
   exact SRel.setReset_scheduled st r i hs
@@ -58,47 +59,47 @@ theorem Evolves.mod_setReset_scheduled {S : Store} (h : Evolves SRel RInv a S) (
 theorem isScheduledReset_of_get {x : State} {r : Reason} (h : x.getScheduledReset = some r) : x.isScheduledReset = true := by
   unfold State.isScheduledReset; rw [h]; rfl
 
-theorem sendHeaders_sr (h : Evolves SRel RInv a s.store) (id : Nat) (eos : Bool) (f : List Hpack.Field) :
-    Evolves SRel RInv a (s.sendHeaders id eos f).1.store := by
+theorem sendHeaders_sr (h : Evolves (SRel D) RInv a s.store) (id : Nat) (eos : Bool) (f : List Hpack.Field) :
+    Evolves (SRel D) RInv a (s.sendHeaders id eos f).1.store := by
   unfold Streams.sendHeaders; ev
 macro_rules | `(tactic| ev_step) => `(tactic| with_reducible apply sendHeaders_sr)
 
-theorem sendPushPromise_sr (h : Evolves SRel RInv a s.store) (p k i : Nat) (f : List Hpack.Field) :
-    Evolves SRel RInv a (s.sendPushPromise p k i f).1.store := by
+theorem sendPushPromise_sr (h : Evolves (SRel D) RInv a s.store) (p k i : Nat) (f : List Hpack.Field) :
+    Evolves (SRel D) RInv a (s.sendPushPromise p k i f).1.store := by
   unfold Streams.sendPushPromise; ev
 macro_rules | `(tactic| ev_step) => `(tactic| with_reducible apply sendPushPromise_sr)
 
-theorem sendInterimInformationalHeaders_sr (h : Evolves SRel RInv a s.store) (id : Nat) (f : List Hpack.Field) :
-    Evolves SRel RInv a (s.sendInterimInformationalHeaders id f).1.store := by
+theorem sendInterimInformationalHeaders_sr (h : Evolves (SRel D) RInv a s.store) (id : Nat) (f : List Hpack.Field) :
+    Evolves (SRel D) RInv a (s.sendInterimInformationalHeaders id f).1.store := by
   unfold Streams.sendInterimInformationalHeaders; ev
 macro_rules | `(tactic| ev_step) => `(tactic| with_reducible apply sendInterimInformationalHeaders_sr)
 
-theorem prioSendData_sr (h : Evolves SRel RInv a s.store) (id len : Nat) (eos : Bool) :
-    Evolves SRel RInv a (s.prioSendData id len eos).1.store := by
+theorem prioSendData_sr (h : Evolves (SRel D) RInv a s.store) (id len : Nat) (eos : Bool) :
+    Evolves (SRel D) RInv a (s.prioSendData id len eos).1.store := by
   unfold Streams.prioSendData; ev
 macro_rules | `(tactic| ev_step) => `(tactic| with_reducible apply prioSendData_sr)
 
-theorem sendTrailers_sr (h : Evolves SRel RInv a s.store) (id : Nat) (f : List Hpack.Field) :
-    Evolves SRel RInv a (s.sendTrailers id f).1.store := by
+theorem sendTrailers_sr (h : Evolves (SRel D) RInv a s.store) (id : Nat) (f : List Hpack.Field) :
+    Evolves (SRel D) RInv a (s.sendTrailers id f).1.store := by
   unfold Streams.sendTrailers; ev
 macro_rules | `(tactic| ev_step) => `(tactic| with_reducible apply sendTrailers_sr)
 
-theorem scheduleImplicitReset_sr (h : Evolves SRel RInv a s.store) (id : Nat) (r : Reason) :
-    Evolves SRel RInv a (s.scheduleImplicitReset id r).store := by
+theorem scheduleImplicitReset_sr (h : Evolves (SRel D) RInv a s.store) (id : Nat) (r : Reason) :
+    Evolves (SRel D) RInv a (s.scheduleImplicitReset id r).store := by
   unfold Streams.scheduleImplicitReset
   split
   · exact h
   · next hc =>
-    have h1 : Evolves SRel RInv a (s.modStream id fun st => { st with state := st.state.setScheduledReset r }).store := by
+    have h1 : Evolves (SRel D) RInv a (s.modStream id fun st => { st with state := st.state.setScheduledReset r }).store := by
       simp only [crp_store]
       refine h.mod _ _ (fun st hg => ?_)
       rw [stream_eq, Store.getD'_of_get? hg] at hc
-      exact SRel.state_step rfl rfl rfl (step_setScheduledReset _ _ _ (by simpa using hc))
+      exact SRel.state_step rfl rfl rfl rfl (step_setScheduledReset _ _ _ (by simpa using hc))
     ev
 macro_rules | `(tactic| ev_step) => `(tactic| with_reducible apply scheduleImplicitReset_sr)
 
-theorem clearPendingSend_sr (fuel : Nat) (h : Evolves SRel RInv a s.store) :
-    Evolves SRel RInv a (Streams.clearPendingSend fuel s).store := by
+theorem clearPendingSend_sr (fuel : Nat) (h : Evolves (SRel D) RInv a s.store) :
+    Evolves (SRel D) RInv a (Streams.clearPendingSend fuel s).store := by
   induction fuel generalizing s with
   | zero => unfold Streams.clearPendingSend; exact h
   | succ n ih =>
@@ -117,8 +118,8 @@ theorem clearPendingSend_sr (fuel : Nat) (h : Evolves SRel RInv a s.store) :
       · ev
 macro_rules | `(tactic| ev_step) => `(tactic| with_reducible apply clearPendingSend_sr)
 
-theorem sendHandleError_sr (h : Evolves SRel RInv a s.store) (id : Nat) :
-    Evolves SRel RInv a (s.sendHandleError id).store := by
+theorem sendHandleError_sr (h : Evolves (SRel D) RInv a s.store) (id : Nat) :
+    Evolves (SRel D) RInv a (s.sendHandleError id).store := by
   unfold Streams.sendHandleError
   dsimp only
   split
@@ -130,7 +131,7 @@ theorem sendHandleError_sr (h : Evolves SRel RInv a s.store) (id : Nat) :
   · ev
 macro_rules | `(tactic| ev_step) => `(tactic| with_reducible apply sendHandleError_sr)
 
-theorem sendClearQueues_sr (h : Evolves SRel RInv a s.store) : Evolves SRel RInv a s.sendClearQueues.store := by
+theorem sendClearQueues_sr (h : Evolves (SRel D) RInv a s.store) : Evolves (SRel D) RInv a s.sendClearQueues.store := by
   unfold Streams.sendClearQueues; ev
 macro_rules | `(tactic| ev_step) => `(tactic| with_reducible apply sendClearQueues_sr)
 
@@ -320,9 +321,10 @@ theorem sendResetPre_store (s : Streams) (id : Nat) (r : Reason) (i : Initiator)
 
 
 /-- a stream that was not reset is closed by an error and its queue rewritten in one step -/
-theorem SRel.reset_atomic' {a b : Stream} (hk : b.key = a.key) (hi : b.id = a.id)
-    (ha : a.state.isReset = false) (hb : isErr b.state = true) (hq : RInv a → resetCount b.pendingSend ≤ 1) : SRel a b := by
-  refine ⟨hk, hi, fun i => ⟨hq i, fun _ => hb⟩, fun _ => ?_, fun _ => (isErr_closed hb).2, fun _ => (isErr_closed hb).1, ?_⟩
+theorem SRel.reset_atomic' {a b : Stream} (hk : b.key = a.key) (hi : b.id = a.id) (hrc : b.refCount = a.refCount)
+    (ha : a.state.isReset = false) (hb : isErr b.state = true) (hq : RInv a → resetCount b.pendingSend ≤ 1) : SRel D a b := by
+  refine ⟨hk, hi, fun i => ⟨hq i, fun _ => hb⟩, fun _ => ?_, fun _ => (isErr_closed hb).2, fun _ => (isErr_closed hb).1, ?_,
+    fun _ => Nat.le_of_eq hrc.symm⟩
   · unfold rank; rw [ha]; simp
   · constructor <;> intro e he
     · rw [(facts_of_error he).1] at ha; cases ha
@@ -336,16 +338,16 @@ theorem resetCount_zero_of_fresh {st : Stream} (i : RInv st) (hr : st.state.isRe
   · have := i.err (by omega); unfold isErr at this; simp [hr] at this
 
 theorem ResetSpec.srel {st y : Stream} {r : Reason} {i : Initiator} (h : ResetSpec st y r i)
-    (hr : st.state.isReset = false) : SRel st y := by
-  refine SRel.reset_atomic' h.key h.id hr (by rw [h.state]; rfl) (fun inv => ?_)
+    (hr : st.state.isReset = false) : SRel D st y := by
+  refine SRel.reset_atomic' h.key h.id h.refCount hr (by rw [h.state]; rfl) (fun inv => ?_)
   rw [h.pendingSend]
   have h0 := resetCount_zero_of_fresh inv hr
   have h1 := resetCount_head?_le st.pendingSend
   simp only [resetCount_append, resetCount_cons, resetCount_nil, isResetFrame]
   split <;> simp <;> omega
 
-theorem sendSendReset_sr (h : Evolves SRel RInv a s.store) (id : Nat) (r : Reason) (i : Initiator) :
-    Evolves SRel RInv a (s.sendSendReset id r i).store := by
+theorem sendSendReset_sr (h : Evolves (SRel D) RInv a s.store) (id : Nat) (r : Reason) (i : Initiator) :
+    Evolves (SRel D) RInv a (s.sendSendReset id r i).store := by
   by_cases hr : (s.stream id).state.isReset = true
   · unfold Streams.sendSendReset; simp only [hr, if_true]; exact h
   · have hr' : (s.stream id).state.isReset = false := by simpa using hr
@@ -368,13 +370,13 @@ theorem sendSendReset_sr (h : Evolves SRel RInv a s.store) (id : Nat) (r : Reaso
       exact (hspec st hg).srel hr'
 macro_rules | `(tactic| ev_step) => `(tactic| with_reducible apply sendSendReset_sr)
 
-theorem sendRecvStreamWindowUpdate_sr (h : Evolves SRel RInv a s.store) (id sz : Nat) :
-    Evolves SRel RInv a (s.sendRecvStreamWindowUpdate id sz).1.store := by
+theorem sendRecvStreamWindowUpdate_sr (h : Evolves (SRel D) RInv a s.store) (id sz : Nat) :
+    Evolves (SRel D) RInv a (s.sendRecvStreamWindowUpdate id sz).1.store := by
   unfold Streams.sendRecvStreamWindowUpdate; ev
 macro_rules | `(tactic| ev_step) => `(tactic| with_reducible apply sendRecvStreamWindowUpdate_sr)
 
-theorem sendApplyRemoteSettings_sr (h : Evolves SRel RInv a s.store) (i p c : Option Nat) :
-    Evolves SRel RInv a (s.sendApplyRemoteSettings i p c).1.store := by
+theorem sendApplyRemoteSettings_sr (h : Evolves (SRel D) RInv a s.store) (i p c : Option Nat) :
+    Evolves (SRel D) RInv a (s.sendApplyRemoteSettings i p c).1.store := by
   unfold Streams.sendApplyRemoteSettings; ev
 macro_rules | `(tactic| ev_step) => `(tactic| with_reducible apply sendApplyRemoteSettings_sr)
 
